@@ -646,8 +646,13 @@ class HandshakeSettings(object):
 
         # the list used with the supported_versions extension must never
         # reach outside the configured [minVersion, maxVersion] window
+        # (TLS 1.2 stays in the list of TLS 1.3-only settings: without it the
+        # peer and a second validate() apply the TLS 1.3-only restrictions on
+        # eccCurves, which the default curves do not meet; a TLS 1.2 answer is
+        # still refused because of minVersion)
+        lowest = min(other.minVersion, (3, 3))
         other.versions = [i for i in other.versions
-                          if other.minVersion <= i <= other.maxVersion]
+                          if lowest <= i <= other.maxVersion]
 
     @staticmethod
     def _sanityCheckEMSExtension(other):
